@@ -335,6 +335,38 @@ func ruleNatsPlumbing(c *Ctx) {
 			}
 		}
 		c.check(ok, fnName(oc), "loss of the server connection invokes the closed handler", p.Pos(oc.Pos()), "calls c.closeHandler", "closed handler is not invoked")
+		// ... on every path: the only way not to call it is that none is set. (The adapter's own Close after a
+		// slow-consumer error clears the connection field before this callback runs; a filter on "is this still
+		// the current connection" would swallow exactly that loss.)
+		c.inst(1)
+		sp := &Spec{}
+		sp.Classify = func(t *Tracer, fr *Frame, in ssa.Instruction) []Ev {
+			if call, isC := in.(ssa.CallInstruction); isC {
+				if f, _ := fieldLoad(t.Resolve(fr, call.Common().Value).V); f != nil && f == fCH {
+					return []Ev{{Kind: "handler"}}
+				}
+			}
+			if _, isR := in.(*ssa.Return); isR && fr == t.RootFr {
+				return []Ev{{Kind: "return"}}
+			}
+			return nil
+		}
+		sp.Branch = func(t *Tracer, fr *Frame, i *ssa.If, dir bool) []Ev {
+			if x, nonNil, isN := nilTest(i, dir); isN && !nonNil {
+				if f, _ := fieldLoad(x); f == fCH {
+					return []Ev{{Kind: "no-handler"}}
+				}
+			}
+			return nil
+		}
+		tr := runTrace(p, oc, sp)
+		bad := ""
+		for _, path := range tr.Paths {
+			if hasKind(path, "return") && !hasKind(path, "handler") && !hasKind(path, "no-handler") {
+				bad = "a path of the connection-closed callback returns without invoking the closed handler although one may be set: the gateway keeps serving from a cache it can no longer update: " + tr.FmtPath(path)
+			}
+		}
+		c.check(bad == "", fnName(oc), "every loss of the server connection reaches the closed handler", p.Pos(oc.Pos()), fmt.Sprintf("%d paths", len(tr.Paths)), bad)
 	}
 }
 
